@@ -75,7 +75,11 @@ fn main() {
                 };
                 dump(r);
                 let (pb, wb) = r.encode_to_vec();
-                println!("   witness bytes {:?}", wb);
+                println!("   witness bytes {:?} program bytes {}", wb, pb.len());
+                let wbits: usize = r.as_ref().post_order_iter::<InternalSharing>().filter_map(|i| match i.node.inner() { Inner::Witness(v) => Some(v.iter_compact().count()), _ => None }).sum();
+                let tbits: usize = r.as_ref().post_order_iter::<InternalSharing>().filter_map(|i| match i.node.inner() { Inner::Witness(_) => Some(i.node.arrow().target.bit_width()), _ => None }).sum();
+                println!("   witness compact bits {wbits}, sum of witness type widths {tbits}");
+                match simfony::simplicity::CommitNode::<simfony::simplicity::jet::Elements>::decode(simfony::simplicity::BitIter::from(pb.clone().into_iter())) { Ok(c) => println!("   program part decodes alone, cmr equal: {}", c.cmr() == r.cmr()), Err(e) => println!("   program part alone: {e}") }
                 let d = simfony::simplicity::RedeemNode::<simfony::simplicity::jet::Elements>::decode(simfony::simplicity::BitIter::from(pb.into_iter()), simfony::simplicity::BitIter::from(wb.into_iter()));
                 match d { Ok(d) => { println!("  decoded:"); dump(&d); println!("   exec decoded: {:?}", vcheck::pipe::exec(&d, &env)); } Err(e) => println!("  decode error {e}") }
                 println!("   exec in-memory: {:?}", vcheck::pipe::exec(r, &env));
